@@ -245,6 +245,23 @@ def _directives(fmt):
     return out
 
 
+def fold_literal_lengths(tree, ref):
+    """`len('Bitcraze Crazyflie')` (what a named constant under len() becomes once the constant is written out) -> 18."""
+    total = 0
+
+    class F(ast.NodeTransformer):
+        def visit_Call(self, n):
+            nonlocal total
+            self.generic_visit(n)
+            if isinstance(n.func, ast.Name) and n.func.id == 'len' and len(n.args) == 1 and not n.keywords and isinstance(n.args[0], ast.Constant) and \
+                    isinstance(n.args[0].value, (str, bytes)):
+                total += 1
+                return ast.copy_location(ast.Constant(value=len(n.args[0].value)), n)
+            return n
+    F().visit(tree)
+    return total
+
+
 def fold_nested_formats(tree, ref):
     """`'%s/%s' % (d, '%08X.json' % crc)` -> `'%s/%08X.json' % (d, crc)`: a plain %s slot filled with the result of another literal
     %-format (always a str) is that format spliced in, with its arguments taking the slot's place.  (The reference has no such nesting.)"""
@@ -5679,7 +5696,7 @@ def normalise(tree, path, ref_locals, model=None):
     for name, fn in (('moved', lambda: pull_back_moved(tree, ref, path, model) + drop_moved_away(tree, ref, path, model)), ('match', lambda: lower_match(tree, ref)), ('walrus', lambda: expand_walrus(tree, ref)), ('eafp', lambda: undo_eafp_probes(tree, ref)), ('getnone', lambda: undo_get_none_tests(tree, ref, ref_locals)), ('iadd', lambda: extend_as_iadd(tree, ref)), ('enums', lambda: dissolve_enums(tree, ref)), ('namedtuples', lambda: dissolve_namedtuples(tree, ref, path, model)), ('regroup', lambda: regroup_indexed_reads(tree, ref, ref_locals)), ('dataclasses', lambda: undo_dataclasses(tree, ref)), ('dispatch', lambda: undo_dispatch_tables(tree, ref)),
                      ('annotations', lambda: strip_annotations(tree, ref)), ('imports', lambda: normalise_imports(tree, ref)), ('attributes', lambda: rename_attributes(tree, ref)),
                      ('methods', lambda: rename_methods(tree, ref)), ('formats', lambda: restyle_formats(tree, ref)), ('spelling', lambda: respell(tree, ref) + respell_len_tests(tree, ref)), ('closures', lambda: restore_closures(tree, ref) + restore_closures_from_objects(tree, ref) + unname_lambdas(tree, ref)), ('self', lambda: restore_self(tree, ref)), ('tuples', lambda: split_tuple_bindings(tree, ref)), ('suppress', lambda: expand_suppress(tree, ref)), ('constants', lambda: _constants(tree, ref)),
-                     ('formats2', lambda: fold_nested_formats(tree, ref)), ('boolindex', lambda: undo_bool_indexing(tree, ref)), ('observability', lambda: drop_observability(tree, ref)), ('params', lambda: default_new_params(tree, ref) + default_new_params(tree, ref)), ('kwargs', lambda: positionalise_keywords(tree, ref, model)), ('initliterals', lambda: inline_init_literals(tree, ref)),
+                     ('formats2', lambda: fold_nested_formats(tree, ref) + fold_literal_lengths(tree, ref)), ('boolindex', lambda: undo_bool_indexing(tree, ref)), ('observability', lambda: drop_observability(tree, ref)), ('params', lambda: default_new_params(tree, ref) + default_new_params(tree, ref)), ('kwargs', lambda: positionalise_keywords(tree, ref, model)), ('initliterals', lambda: inline_init_literals(tree, ref)),
                      ('structs', lambda: inline_struct_objects(tree, ref)),
                      ('anytests', lambda: lower_any_tests(tree, ref)), ('itertools', lambda: undo_iteration_tools(tree, ref) + undo_iteration_tools(tree, ref)), ('continues', lambda: nest_early_continues(tree, ref) + loop_guards_to_test(tree, ref)), ('loops', lambda: reshape_loops(tree, ref, ref_locals)), ('predicates', lambda: fold_predicate_helpers(tree, ref) + fold_guard_flags(tree, ref, ref_locals) + returns_to_breaks(tree, ref)), ('helpers', lambda: inline_generator_loops(tree, ref) + inline_helpers(tree, ref)), ('namedtuples2', lambda: dissolve_namedtuples(tree, ref, path, model)), ('records', lambda: scalarise_records(tree, ref)), ('tuplevars', lambda: scalarise_tuple_locals(tree, ref, ref_locals)), ('elsedefaults', lambda: hoist_else_defaults(tree, ref)), ('ifexps0', lambda: expand_ifexps(tree, ref)), ('flagtails', lambda: sink_flag_tails(tree, ref, ref_locals)), ('decided', lambda: fold_decided_branches(tree, ref)), ('trivia', lambda: merge_common_tails(tree, ref, ref_locals) + drop_trivia(tree, ref)), ('ifexps', lambda: expand_ifexps(tree, ref)), ('boolreturns', lambda: expand_bool_returns(tree, ref)),
                      ('unrolled', lambda: unroll_loops(tree, ref)), ('builtlists', lambda: scalarise_built_lists(tree, ref, ref_locals)),
